@@ -424,7 +424,7 @@ def timeline(mode):
     req = BASIC + [('ref_compatible', 'S(n - 1) < R'), ('dx_def', 'dx_periodic_live' if live else 'dx_periodic_vod')]
     if live:
         req += [('clock', 'live_clock')]
-        ens += [('starts_at_' + lab, t) for lab, t in gsi('tl0', 'a0', 'tl_start', 'origin_time')]
+        ens += [('starts_at_' + lab, t) for lab, t in gsi('tl0', 'a0', 'tl_start', 'origin0')]
     else:
         ens += [('starts_at_zero', 'a0 == 1 and tl_start == 0')]
     # spec names for the timeline start: in live mode the result of calculate_segment_from_timecode(timeline_start)
@@ -437,7 +437,7 @@ def timeline(mode):
         ctors={'SegmentTimelineElement': ctor_timeline_element},
         loops={0: Loop(
             ghost={'a0': 'mod_segment', 'a': 'mod_segment', 'base': '0', 'cur': 'seg_start_time',
-                   'tl_start': 'seg_start_time', 'end_': 'end'},
+                   'tl_start': 'seg_start_time', 'end_': 'end', 'origin0': 'origin_time'},
             ghost_update={'a': 'a + 1', 'base': 'base + n if mod_segment == 1 else base',
                           'cur': 'seg_start_time + dur'},
             invariant=inv,
